@@ -142,6 +142,51 @@ func (e *Engine) yamlIntrinsic(fn *ssa.Function, full string, args []Value) (Val
 			return TupleVal{SliceVal{}, e.newError(mkStr("yaml: marshal error"))}, true
 		}
 		return TupleVal{YBytes{root: root}, IfaceVal{}}, true
+	case "bytes.NewReader":
+		// a reader over a document the engine holds abstractly; plain byte
+		// slices keep running from the library's own code
+		switch args[0].(type) {
+		case YBytes, JBytes, bufBytes:
+			slot := new(Value)
+			*slot = &ReaderObj{src: args[0]}
+			return PtrVal{slot}, true
+		}
+		return nil, false
+	case "gopkg.in/yaml.v3.NewDecoder":
+		src := Value(nil)
+		if iv, ok := args[0].(IfaceVal); ok {
+			if p, ok := iv.val.(PtrVal); ok && p.slot != nil {
+				if r, ok := (*p.slot).(*ReaderObj); ok {
+					src = r.src
+				}
+			}
+		}
+		if src == nil {
+			unsupported("yaml.NewDecoder over a reader the engine does not hold a document for")
+		}
+		slot := new(Value)
+		*slot = &YDecoderObj{src: src}
+		return PtrVal{slot}, true
+	case "(*gopkg.in/yaml.v3.Decoder).Decode":
+		d := (*args[0].(PtrVal).slot).(*YDecoderObj)
+		if d.done {
+			return e.sentinelError("io.EOF"), true
+		}
+		d.done = true
+		outI := args[1].(IfaceVal)
+		out, ok := outI.val.(PtrVal)
+		if !ok || out.slot == nil || !types.Identical(outI.typ.Underlying().(*types.Pointer).Elem(), e.yamlNodeType()) {
+			unsupported("yaml.Decoder.Decode into %v", outI.typ)
+		}
+		var root PtrVal
+		if yb, ok := d.src.(YBytes); ok {
+			root = e.copyYAMLTree(yb.root, 0)
+		} else {
+			root = e.jToYAML(e.bytesToJ(d.src))
+		}
+		doc := e.newYAMLNode(yDocumentNode, "", StrVal{}, []Value{root})
+		assign(out.slot, *doc.slot)
+		return IfaceVal{}, true
 	case "gopkg.in/yaml.v3.Unmarshal":
 		if yb, ok := args[0].(YBytes); ok {
 			// a YAML document produced by yaml.Marshal: the parser returns its node tree
@@ -317,6 +362,14 @@ func (e *Engine) resolvePlainScalar(val StrVal) IfaceVal {
 // IsZeroer, inline structs flattened, inline map appended and checked for
 // conflicts). The result is a node tree; scalar spelling and quoting are the
 // library's and are not modelled (every string is a !!str scalar).
+
+// ReaderObj is a *bytes.Reader over an abstractly held document; YDecoderObj a
+// *yaml.Decoder reading from one.
+type ReaderObj struct{ src Value }
+type YDecoderObj struct {
+	src  Value
+	done bool
+}
 
 // YBytes is the engine value of a []byte holding a YAML document.
 type YBytes struct{ root PtrVal }
@@ -758,4 +811,18 @@ func (e *Engine) yamlDecodeScalar(nt types.Type, sv *StructVal, slot *Value) Ifa
 		unsupported("yaml.Node.Decode with tag %s", tag)
 	}
 	return IfaceVal{}
+}
+
+// sentinelError returns the value of a library's sentinel error variable
+// ("io.EOF"), the same object the code under test compares against.
+func (e *Engine) sentinelError(name string) Value {
+	pkgPath, member, _ := strings.Cut(name, ".")
+	for _, p := range e.sh.prog.AllPackages() {
+		if p.Pkg.Path() == pkgPath {
+			if g, ok := p.Members[member].(*ssa.Global); ok {
+				return *e.globalSlot(g)
+			}
+		}
+	}
+	return e.newError(mkStr(name))
 }
